@@ -288,10 +288,54 @@ func init() {
 				if back := PruferCode(tr); !reflect.DeepEqual(back, code) {
 					return fmt.Errorf("PruferCode(PruferTree(%v)) = %v", code, back)
 				}
+				if !PruferTreeCounted(code).Equal(tr) {
+					return fmt.Errorf("PruferTreeCounted(%v) differs from PruferTree", code)
+				}
 				seen[tr.Key()] = true
 			}
 			if len(seen) != total {
 				return fmt.Errorf("n=%d: %d distinct trees from %d codes", n, len(seen), total)
+			}
+		}
+		// long codes with heavily repeated values: the two reference decoders
+		// agree, the degrees are 1 + number of occurrences, the code comes back
+		rnd := uint64(99)
+		next := func(m int) int {
+			rnd = rnd*6364136223846793005 + 1442695040888963407
+			return int((rnd >> 33) % uint64(m))
+		}
+		for t := 0; t < 60; t++ {
+			n := 20 + next(60)
+			if t%10 == 0 {
+				n = 300 + next(30)
+			}
+			code := make([]int, n-2)
+			a, b := next(n), next(n)
+			for i := range code {
+				switch t % 3 {
+				case 0:
+					code[i] = a
+				case 1:
+					code[i] = []int{a, b}[next(2)]
+				default:
+					code[i] = next(n)
+				}
+			}
+			tr := PruferTreeCounted(code)
+			if !IsTree(tr) || (n < 100 && !PruferTree(code).Equal(tr)) {
+				return fmt.Errorf("PruferTreeCounted(%v) wrong", code)
+			}
+			occ := make([]int, n)
+			for _, c := range code {
+				occ[c]++
+			}
+			for v := 0; v < n; v++ {
+				if tr.Deg(v) != occ[v]+1 {
+					return fmt.Errorf("PruferTreeCounted(%v): degree of %d is %d, %d occurrences", code, v, tr.Deg(v), occ[v])
+				}
+			}
+			if back := PruferCode(tr); !reflect.DeepEqual(back, code) {
+				return fmt.Errorf("PruferCode(PruferTreeCounted(%v)) = %v", code, back)
 			}
 		}
 		return nil
